@@ -2,6 +2,7 @@
 import DSModel.Canon
 import DSModel.Theta.Update
 import DSModel.Theta.SetOps
+import DSModel.Theta.Table
 namespace DS.Theta
 
 inductive Obj where
@@ -244,3 +245,61 @@ def stepLine (t : Tunables) (o : Objs) (w0 : List String) : Objs × String :=
   | _ => (o, "bad-op")
 
 end DS.Theta
+
+namespace DS.Theta.L2D
+open DS.Theta DS.Theta.L2
+
+/-- driver state for the concrete-table model: per sketch (cfg, seed, table state, "rebuilt since reset") -/
+abbrev Objs := Array (Option (Cfg × UInt64 × Option (TSt Unit) × Bool))
+
+def obs (x : Cfg × UInt64 × Option (TSt Unit) × Bool) : String :=
+  match x with
+  | (_, _, none, _) => "logic-error"
+  | (_, _, some t, rebuilt) =>
+    let ks := keys (entries t.slots)
+    let th := if t.isEmpty then MAX_THETA else t.theta
+    -- before the first rebuild the slot order is determined (R); afterwards only the set is (S)
+    let body := if rebuilt then "S " ++ joinSp ((sortNat ks).map toString) else "R " ++ joinSp (ks.map toString)
+    s!"W {th} {boolStr t.isEmpty} {ks.length} {body}"
+
+def stepLine (tn : Tunables) (bits : Nat) (o : Objs) (w : List String) : Objs × String :=
+  let set (i : Nat) (v : Cfg × UInt64 × Option (TSt Unit) × Bool) : Objs :=
+    let a := if i < o.size then o else o ++ Array.replicate (i + 1 - o.size) none
+    a.set! i (some v)
+  match w with
+  | ["new", id, lgk, rf, p, seed] =>
+    match id.toNat?, lgk.toNat?, rf.toNat?, parseHex p, seed.toNat? with
+    | some id, some lgk, some rf, some p, some seed =>
+      let c := mkCfg tn lgk rf (UInt32.ofNat p)
+      let v := (c, UInt64.ofNat seed, some (initT c), false)
+      (set id v, obs v)
+    | _, _, _, _, _ => (o, "bad-op")
+  | ["upd", id, ty, lit] =>
+    match id.toNat?, parseInput ty lit with
+    | some id, some inp =>
+      match (o[id]?).join with
+      | some (c, seed, some t, rb) =>
+        let (t', rb') := match thetaHash inp seed with
+          | some h =>
+            let t' := offerT bits c t h unitF
+            -- a rebuild shows as a theta change
+            (t', rb || (match t' with | some t2 => t2.theta != t.theta | none => false))
+          | none => (some t, rb)
+        let v := (c, seed, t', rb')
+        (set id v, obs v)
+      | _ => (o, "bad-op")
+    | _, _ => (o, "bad-op")
+  | ["trim", id] =>
+    match id.toNat? >>= fun i => (o[i]?).join with
+    | some (c, seed, some t, rb) =>
+      let t' := trimT bits c t
+      let v := (c, seed, t', rb || (match t' with | some t2 => t2.theta != t.theta | none => false))
+      (set id.toNat?.get! v, obs v)
+    | _ => (o, "bad-op")
+  | ["reset", id] =>
+    match id.toNat? >>= fun i => (o[i]?).join with
+    | some (c, seed, _, _) => let v := (c, seed, some (initT c), false); (set id.toNat?.get! v, obs v)
+    | _ => (o, "bad-op")
+  | _ => (o, "bad-op")
+
+end DS.Theta.L2D
